@@ -33,14 +33,14 @@ func init() {
 }
 
 type enode struct {
-	kind string // const | col | fn
-	name string // function name or column name
-	args []*enode
-	ck   model.Kind // constant kind
-	cI   int
-	cF   float64
-	cB   bool
-	cS   *string
+	kind   string // const | col | fn
+	name   string // function name or column name
+	args   []*enode
+	ck     model.Kind // constant kind
+	cI     int
+	cF     float64
+	cB     bool
+	cS     *string
 	viaVal bool // wrap constant/column in qframe.Val
 }
 
@@ -122,11 +122,11 @@ func (e *enode) real() qframe.Expression {
 }
 
 // user functions registered in the context
-func userI2(x, y int) int           { return x*3 - y }
-func userI1(x int) int              { return x*x - 1 }
-func userF2(x, y float64) float64   { return x - 2*y }
-func userF1b(x float64) bool        { return x > 0.5 }
-func userB2(x, y bool) bool         { return x && !y }
+func userI2(x, y int) int         { return x*3 - y }
+func userI1(x int) int            { return x*x - 1 }
+func userF2(x, y float64) float64 { return x - 2*y }
+func userF1b(x float64) bool      { return x > 0.5 }
+func userB2(x, y bool) bool       { return x && !y }
 func userS2(x, y *string) *string {
 	if x == nil || y == nil {
 		return nil
